@@ -689,7 +689,9 @@ def witness_cpp(t, workdir: pathlib.Path, std: str, direction: str, n_cases: int
             elif kind == 3:
                 data = bytes(rng.getrandbits(8) for _ in range(rng.randint(0, mbytes + 2)))
             inputs.append((data, len(data)))
-        body.append(f"static void run(int k) {{ {ctype} obj{{}}; switch (k) {{")
+        # prior state: the destination first receives a decode of an all-ones message (the outcome must not depend on it)
+        ones = ", ".join(["255"] * (mbytes + 2))
+        body.append(f"static void run(int k) {{ {ctype} obj{{}}; {{ static const std::uint8_t o_[] = {{ {ones} }}; (void) deserialize(obj, nunavut::support::const_bitspan{{o_, sizeof(o_)}}); }} switch (k) {{")
         for k, (data, size) in enumerate(inputs):
             erc, ev, esz = deserialize_ref(t, data, size)
             exp.append((erc, ev, esz))
